@@ -33,6 +33,28 @@ def parseEvent (e : GoErr) (j : Json) : JE (Key × Act) := do
   | a => throw s!"bad act {a}"
 
 
+/-- {"h":"wrap","key":k} | {"h":"observe"} | {"h":"rewrap"} -/
+def parseHop (j : Json) : JE Hop := do
+  match (← J.str j "h") with
+  | "wrap" => pure (.wrap (← J.str j "key"))
+  | "observe" => pure .observe
+  | "rewrap" => pure .rewrap
+  | h => throw s!"bad hop {h}"
+
+/-- family obsnode: {"kind":"obsnode","hops":[…innermost first…],"err":…,"target":n} → what the
+    caller finds in the returned error: errors.Is, the path field, the path the TEXT names -/
+def handleObserved (c : Json) : JE Json := do
+  let hops ← (← J.arr c "hops").mapM parseHop
+  let e ← parseErr (← J.field c "err")
+  let t ← J.nat c "target"
+  let hu := Expected.C13.internalErrorHasUnwrap
+  let st := travel hu Expected.C13.errorTextMemoised hops e
+  pure <| Json.mkObj [
+    ("is", Json.bool (errorsIs hu st.err t)),
+    ("path", J.mkStrs (nodePath st.err)),
+    ("textPath", J.mkStrs (textPath st)),
+    ("interrupt", Json.bool (isInterrupt hu st.err))]
+
 /-- {"k":"canceled"} | {"k":"deadline"} | {"k":"custom","id":n} -/
 def parseCtxEnd (j : Json) : JE CtxEnd := do
   match (← J.str j "k") with
@@ -53,6 +75,7 @@ def handleCtxEnd (c : Json) : JE Json := do
   pure <| Json.mkObj [
     ("isT", J.mkArr (targets.map fun t => Json.bool (errorsIs hu out t))),
     ("path", J.mkStrs (nodePath out)),
+      ("textPath", J.mkStrs (textPath { err := out, cache := none })),
     ("interrupt", Json.bool (isInterrupt hu out))]
 
 /-- {"k":"arr","items":[…]} | {"k":"pipe","items":[…]} | {"k":"conv","s":…,"panicOn":n?,"errOn":n?} |
@@ -105,6 +128,7 @@ def handle (c : Json) : JE Json := do
   match J.strD c "kind" "" with
   | "ctxend" => handleCtxEnd c
   | "fwdtree" => handleFwdTree c
+  | "obsnode" => handleObserved c
   | _ =>
   let levels ← (← J.arr c "levels").mapM parseLevel
   let e ← parseErr (← J.field c "err")
@@ -117,6 +141,7 @@ def handle (c : Json) : JE Json := do
     pure <| Json.mkObj [
       ("is", Json.bool (errorsIs hu out t)),
       ("path", J.mkStrs (nodePath out)),
+      ("textPath", J.mkStrs (textPath { err := out, cache := none })),
       ("interrupt", Json.bool (isInterrupt hu out))]
   else
     let evs ← evsJ.mapM (parseEvent e)
@@ -135,6 +160,7 @@ def handle (c : Json) : JE Json := do
         ("step", "reported"),
         ("is", Json.bool (errorsIs hu out t)),
         ("path", J.mkStrs (nodePath out)),
+      ("textPath", J.mkStrs (textPath { err := out, cache := none })),
         ("interrupt", Json.bool (isInterrupt hu out))]
 
 end EinoV.Oracle.C13
